@@ -143,6 +143,19 @@ def chunks_of(req):
     return out, (L(last[0]), L(last[1]))
 
 
+def fields_of(req):
+    """the field list: the explicit fields, then `hgen` = {'n', 'vlen'}: n generated fields
+    `X-Gen-<i>: <vlen bytes>` of normal size (a large header section without a large JSON case)"""
+    g = req.get('hgen')
+    if not g:
+        return req['h']
+    out = list(req['h'])
+    for i in range(g['n']):
+        nm = ('X-Gen-%d' % i) if i % 3 else ('x-gEN-%d' % i)
+        out.append([nm, ' ' if i % 5 else '\t ', chr(97 + i % 26) * g['vlen'], '' if i % 7 else ' '])
+    return out
+
+
 def render_target(req):
     if req.get('origin'):
         return L(req['pq'])
@@ -153,7 +166,7 @@ def render(req):
     if 'raw' in req:
         return bytes.fromhex(req['raw'])
     out = L(req['m']) + b' ' + render_target(req) + b' ' + L(req['ver']) + CRLF
-    for name, pre, value, post in req['h']:
+    for name, pre, value, post in fields_of(req):
         out += L(name) + b':' + L(pre) + L(value) + L(post) + CRLF
     out += CRLF
     if req['fr'] == 'cl':
@@ -220,14 +233,14 @@ def wf(req):
     if ver not in (b'HTTP/1.1', b'HTTP/1.0'):
         return False
     names = []
-    for name, pre, value, post in req['h']:
+    for name, pre, value, post in fields_of(req):
         name, pre, value, post = L(name), L(pre), L(value), L(post)
         if not _token(name) or any(c not in b' \t' for c in pre + post) or not _value_ok(value):
             return False
         names.append(name.lower())
     if len(set(names)) != len(names):
         return False
-    hd = {L(h[0]).lower(): L(h[2]) for h in req['h']}
+    hd = {L(h[0]).lower(): L(h[2]) for h in fields_of(req)}
     body = body_of(req['body'])
     if req['fr'] == 'none':
         return not body and b'content-length' not in hd and b'transfer-encoding' not in hd
@@ -252,7 +265,7 @@ def fwd_spec(req, disable, via):
     """Python mirror of `fwdSpecWith`: (method, origin-form target, version, [(name, value)], body)."""
     pq = L(req['pq'])
     removed = {b'proxy-authorization', b'proxy-connection'} | set(disable)
-    kept = [(L(n), L(v)) for n, _, v, _ in req['h'] if L(n).lower() not in removed]
+    kept = [(L(n), L(v)) for n, _, v, _ in fields_of(req) if L(n).lower() not in removed]
     if via:
         if any(n.lower() == b'via' for n, _ in kept):
             kept = [(n, v + b', ' + via_value()) if n.lower() == b'via' else (n, v) for n, v in kept]
@@ -756,6 +769,28 @@ def corpus():
     raw = b'GET http://h/ HTTP/1.1\r\nContent-Length: x\r\n\r\n'
     cs.append(_conn([{'raw': raw.hex(), 'cuts': [24, 43]}]))
     cs.append(_conn([{'raw': raw.hex(), 'cuts': [16, 43]}]))
+    # a request cut inside its request line / inside a header whose next piece carries the rest of the
+    # header section plus more than 64 KiB of body (escaped seeded change, round 3)
+    for nb in (65535, 65536, 65537, 70000, 131073):
+        big = {'n': nb, 'a': 7, 'b': 3}
+        rc = _simple(b'POST', 'h', None, '/big', host + [('Content-Length', ' ', str(nb), '')], 'cl')
+        rc['body'] = big
+        rk = _simple(b'POST', 'h', None, '/big', host + [te], 'chunked', lay={'uni': 16384})
+        rk['body'] = big
+        for r_, first in ((rc, 7), (rk, 40), (rc, 45), (rk, 12)):
+            raw_len = len(render(r_))
+            cuts = [first]
+            while raw_len - cuts[-1] > 131072:
+                cuts.append(cuts[-1] + 131072)
+            cs.append(_conn([dict(r_, cuts=cuts)]))
+        cs.append(_conn([_simple(b'GET', 'h', None, '/1', host), dict(rc, cuts=[9] + ([9 + 131072] if len(render(rc)) - 9 > 131072 else []))]))
+    # header section larger than 64 KiB made of many normal-size fields
+    hb = _simple(b'GET', 'h', None, '/hdrs', host)
+    hb['hgen'] = {'n': 1500, 'vlen': 40}
+    cs.append(_conn([hb]))
+    cs.append(_conn([dict(hb, cuts=[5])]))
+    cs.append(_conn([dict(hb, cuts=[60, 40000, 90000])]))
+    cs.append(_conn([_simple(b'GET', 'h', None, '/1', host), dict(hb, cuts=[30])]))
     # requests sharing a write (pipelining, fixed by 84c574d): all in one write, tail+head in one write
     g1 = _simple(b'GET', 'h', None, '/1', host)
     p2 = _simple(b'POST', 'h', None, '/2', host + [('Content-Length', ' ', '3', '')], 'cl', b'abc')
@@ -821,18 +856,62 @@ def generate(rng, tier):
                 pre = reqs[:rng.randrange(0, len(reqs))]
                 yield _conn(pre + [{'raw': raw.hex(), 'cuts': G.cuts(rng, len(raw), rng.choice([0, 1, 2]))}], disable,
                             glue=[rng.random() < 0.4 for _ in pre])
-    # large bodies: a handful
+    # large bodies: a handful, benign cuts
     for nb in ([65535, 65536, 70 * 1024, 71000, 131071, 131072, 131073, 200000, 262145] if thorough
-               else [65536, 70 * 1024, 131073]):
+               else [65536, 131073]):
         for fr in ('cl', 'chunked'):
             disable = rng.choice(DISABLE_SETS)
-            r = gen_req(rng, disable, True, nbody=nb)
-            while r['fr'] != fr or body_of(r['body']) == b'':
-                r = gen_req(rng, disable, True, nbody=nb)
-            # segments must fit the client receive buffer
+            r = _big_req(rng, disable, nb, fr)
             raw_len = len(render(r))
             r['cuts'] = sorted(set(list(range(60000, raw_len, 60000)) + G.cuts(rng, raw_len, 3)))
             yield _conn([r, gen_req(rng, disable, False)], disable)
+    # large bodies whose FIRST cut lies inside the request line or inside a header line and whose next
+    # piece carries the rest of the header section plus as much body as a recv() can return
+    for nb in ([65535, 65536, 65537, 70000, 131073, 200000] if thorough else [65535, 65536, 65537, 70000, 131073]):
+        for fr in ('cl', 'chunked'):
+            for where in (('line', 'header') if thorough else (rng.choice(['line', 'header']),)):
+                disable = rng.choice(DISABLE_SETS)
+                r = _big_req(rng, disable, nb, fr)
+                r['cuts'] = _early_cut(rng, r, where)
+                pos = rng.choice([0, 1]) if thorough else (nb % 2)
+                if pos == 0:
+                    yield _conn([r, gen_req(rng, disable, False)], disable)
+                else:
+                    yield _conn([gen_req(rng, disable, True, allow_upgrade=False), r], disable)
+    # header sections larger than 64 KiB made of many normal-size fields (and one just below)
+    for n, vlen in ([(1500, 40), (700, 90), (1200, 40)] if thorough else [(1500, 40), (1200, 40)]):
+        disable = rng.choice(DISABLE_SETS)
+        r = gen_req(rng, disable, True, nbody=rng.choice([0, 5, 100]))
+        r['hgen'] = {'n': n, 'vlen': vlen}
+        raw_len = len(render(r))
+        for cuts in ([], _early_cut(rng, r, 'header'), sorted(set(G.cuts(rng, raw_len, 4)))):
+            yield _conn([dict(r, cuts=cuts), gen_req(rng, disable, False)], disable)
+        yield _conn([gen_req(rng, disable, True, allow_upgrade=False), dict(r, cuts=_early_cut(rng, r, 'line'))], disable)
+
+
+RECV_MAX = 131072
+
+
+def _big_req(rng, disable, nb, fr):
+    r = gen_req(rng, disable, True, nbody=nb)
+    while r['fr'] != fr or body_of(r['body']) == b'':
+        r = gen_req(rng, disable, True, nbody=nb)
+    return r
+
+
+def _early_cut(rng, req, where):
+    """first cut inside the request line / inside a header line; then pieces as large as recv() allows"""
+    raw = render(req)
+    eol = raw.index(CRLF)
+    end = raw.index(CRLF + CRLF)
+    if where == 'line' or end <= eol + 3:
+        first = rng.randrange(1, eol + 1)
+    else:
+        first = rng.randrange(eol + 3, end + 1)      # inside the header block, before the blank line is complete
+    cuts = [first]
+    while len(raw) - cuts[-1] > RECV_MAX:
+        cuts.append(cuts[-1] + RECV_MAX)
+    return cuts
 
 
 def neighbours(case):
@@ -880,7 +959,9 @@ def describe(case):
                                              '=0' if n == 0 else '<256' if n < 256 else '<64K' if n < 65536 else '>=64K'))
         segs = r.get('cuts')
         out.append('pieces=%s' % ('bytewise' if segs == 'bytes' else min(len(segs) + 1, 5)))
-        low = [L(h[0]).lower() for h in r['h']]
+        low = [L(h[0]).lower() for h in fields_of(r)]
+        if r.get('hgen'):
+            out.append('header-section>64K' if r['hgen']['n'] * (r['hgen']['vlen'] + 12) > 65536 else 'many-fields')
         for nm in (b'proxy-authorization', b'proxy-connection', b'via'):
             if nm in low:
                 out.append('has ' + nm.decode())
